@@ -254,6 +254,16 @@ func parseLine(line string, document *Document, family *FamilyNode) (Node, int, 
 	// Tag (required).
 	tag := TagFromString(parts[3])
 
+	// Husbands, wives and children only make sense inside of a family. Without
+	// one the node cannot be created.
+	switch tag {
+	case TagChild, TagHusband, TagWife:
+		if family == nil {
+			return nil, 0, fmt.Errorf("%s without a family: %s",
+				tag.Tag(), line)
+		}
+	}
+
 	// Value (optional).
 	value := parts[4]
 
